@@ -311,10 +311,66 @@ Proof.
     apply Units_Tail; [exact Hx|]. apply TSepN. apply IH. exact HF'.
 Qed.
 
-Lemma defined_items_length o vars env : (length (defined_items o vars env) <= length vars)%nat.
+Lemma ifemp_units o : op_named o = true -> Units (item_class o) (op_ifemp o).
 Proof.
-  unfold defined_items. induction vars as [|v vars IH]; cbn [flat_map length]; [lia|].
-  rewrite app_length. destruct (env (vs_name v)); cbn [length]; lia.
+  intros En. destruct o; try discriminate En; cbn [op_ifemp];
+    [apply UNil | apply UChr; [reflexivity | apply UNil] | apply UChr; [reflexivity | apply UNil]].
+Qed.
+
+Lemma comma_item_class o : item_class o 44 = true.
+Proof. unfold item_class, rx_class. destruct (op_allow_r o); reflexivity. Qed.
+
+Lemma join_comma_units o l : Units (item_class o) (join_sep 44 (map (esc_for o) l)).
+Proof.
+  induction l as [|m l IH]; [constructor|]. cbn [map]. destruct l as [|m2 l'].
+  - cbn [map join_sep]. apply esc_for_units.
+  - change (join_sep 44 (esc_for o m :: map (esc_for o) (m2 :: l')))
+      with (esc_for o m ++ 44 :: join_sep 44 (map (esc_for o) (m2 :: l'))).
+    apply Units_app; [apply esc_for_units|]. apply UChr; [apply comma_item_class | exact IH].
+Qed.
+
+Lemma named_item_units o vs body :
+  op_named o = true -> name_chars_ok (vs_name vs) = true -> Units (item_class o) body ->
+  Units (item_class o) (match body with [] => vs_name vs ++ op_ifemp o | _ => vs_name vs ++ [61] ++ body end).
+Proof.
+  intros En Hn Hb.
+  assert (Hname : Units (item_class o) (vs_name vs)) by (apply name_units; [apply unreserved_item_class | exact Hn]).
+  destruct body as [|c body'].
+  - apply Units_app; [exact Hname | apply ifemp_units; exact En].
+  - apply Units_app; [exact Hname|]. cbn [app]. apply UChr; [apply named_eq_item_class; exact En | exact Hb].
+Qed.
+
+Lemma var_items_units o vs val :
+  name_chars_ok (vs_name vs) = true -> Forall (Units (item_class o)) (var_items o vs val).
+Proof.
+  intros Hn. unfold var_items. destruct val as [[v|l]|]; [| |constructor].
+  - constructor; [apply expand_var_units; exact Hn | constructor].
+  - destruct l as [|m l]; [constructor|]. destruct (negb (N.eqb (vs_maxlen vs) 0)); [constructor|].
+    destruct (vs_explode vs).
+    + apply Forall_forall. intros x Hx. apply in_map_iff in Hx. destruct Hx as [m0 [<- _]].
+      destruct (op_named o) eqn:En; [|apply esc_for_units].
+      assert (Hname : Units (item_class o) (vs_name vs)) by (apply name_units; [apply unreserved_item_class | exact Hn]).
+      destruct m0 as [|c m0'].
+      * apply Units_app; [exact Hname | apply ifemp_units; exact En].
+      * apply Units_app; [exact Hname|]. cbn [app]. apply UChr; [apply named_eq_item_class; exact En | apply esc_for_units].
+    + constructor; [|constructor]. cbv zeta.
+      destruct (op_named o) eqn:En; [|apply join_comma_units].
+      apply named_item_units; [exact En | exact Hn | apply join_comma_units].
+Qed.
+
+Lemma var_items_length o vs val : vs_explode vs = false -> (length (var_items o vs val) <= 1)%nat.
+Proof.
+  intros He. unfold var_items. destruct val as [[v|l]|]; cbn [length]; try lia.
+  destruct l as [|m l]; cbn [length]; [lia|]. destruct (negb (N.eqb (vs_maxlen vs) 0)); cbn [length]; [lia|].
+  rewrite He. cbn [length]. lia.
+Qed.
+
+Lemma defined_items_length o vars env :
+  any_explode vars = false -> (length (defined_items o vars env) <= length vars)%nat.
+Proof.
+  unfold defined_items, any_explode. induction vars as [|v vars IH]; cbn [flat_map length existsb]; intros H; [lia|].
+  apply orb_false_iff in H. destruct H as [Hv H]. rewrite app_length.
+  pose proof (var_items_length o v (env (vs_name v)) Hv). specialize (IH H). lia.
 Qed.
 
 Lemma defined_items_units o vars env :
@@ -323,15 +379,18 @@ Lemma defined_items_units o vars env :
 Proof.
   unfold defined_items. induction vars as [|v vars IH]; cbn [flat_map forallb]; intros H; [constructor|].
   apply andb_true_iff in H. destruct H as [Hv H]. apply Forall_app. split; [|apply IH; exact H].
-  destruct (env (vs_name v)); [|constructor]. constructor; [apply expand_var_units; exact Hv | constructor].
+  apply var_items_units. exact Hv.
 Qed.
 
+(* an exploded variable at the head is what puts the group in the expression when there is a single variable *)
 Lemma join_body o vars items :
-  Forall (Units (item_class o)) items -> items <> [] -> (length items <= length vars)%nat ->
+  Forall (Units (item_class o)) items -> items <> [] ->
+  (any_explode vars = false -> (length items <= length vars)%nat) ->
+  ((1 < length items)%nat -> (1 < length vars)%nat \/ head_explode vars = true) ->
   let e := rx_of_expr o vars in
   BodyL (rx_cls1 e) (rx_cls2 e) (rx_sep e) (rx_max e) (join_sep (op_sep o) items).
 Proof.
-  intros HF Hne Hl e. destruct items as [|x items]; [congruence|].
+  intros HF Hne Hl Hg e. destruct items as [|x items]; [congruence|].
   inversion HF as [|? ? Hx HF']. subst.
   assert (Hx1 : Units (rx_cls1 e) x) by (eapply Units_mono; [|exact Hx]; intros c Hc; apply (item_class_sub o vars c Hc)).
   assert (HF2 : Forall (Units (rx_cls2 e)) items).
@@ -340,12 +399,25 @@ Proof.
   - cbn [join_sep]. rewrite <- (app_nil_r x). apply Units_Body; [exact Hx1 | constructor].
   - change (join_sep (op_sep o) (x :: y :: items')) with (x ++ op_sep o :: join_sep (op_sep o) (y :: items')).
     apply Units_Body; [exact Hx1|]. subst e. unfold rx_of_expr in HF2 |- *. cbn [rx_sep rx_max rx_cls1 rx_cls2] in HF2 |- *.
-    assert (Hlen : (1 < length vars)%nat) by (cbn [length] in Hl; lia).
-    apply Nat.ltb_lt in Hlen. rewrite Hlen. cbn [orb].
-    destruct (any_explode vars).
+    assert (Hgrp : (Nat.ltb 1 (length vars) || head_explode vars) = true).
+    { destruct Hg as [Hg|Hg]; [cbn [length]; lia | apply Nat.ltb_lt in Hg; rewrite Hg; reflexivity | rewrite Hg; apply orb_true_r]. }
+    rewrite Hgrp.
+    destruct (any_explode vars) eqn:Ea.
     + apply BSepN. apply join_tail_unbounded. exact HF2.
-    + destruct (length vars) as [|[|n]] eqn:El; [apply Nat.ltb_lt in Hlen; lia | apply Nat.ltb_lt in Hlen; lia|].
+    + specialize (Hl eq_refl). destruct (length vars) as [|[|n]] eqn:El; [cbn [length] in Hl; lia | cbn [length] in Hl; lia|].
       cbn [Nat.sub]. rewrite ?Nat.sub_0_r. apply BSepS. apply join_tail; [exact HF2 | cbn [length] in *; lia].
+Qed.
+
+Lemma head_explode_any vars : head_explode vars = true -> any_explode vars = true.
+Proof. destruct vars as [|v vars]; [discriminate|]. cbn [head_explode any_explode existsb]. intros ->. reflexivity. Qed.
+
+Lemma many_items_need_group o vars env :
+  (1 < length (defined_items o vars env))%nat -> (1 < length vars)%nat \/ head_explode vars = true.
+Proof.
+  intros H. destruct vars as [|v [|v2 vars]]; [cbn in H; lia| |left; cbn [length]; lia].
+  right. cbn [head_explode]. destruct (vs_explode v) eqn:E; [reflexivity|].
+  unfold defined_items in H. cbn [flat_map] in H. rewrite app_nil_r in H.
+  pose proof (var_items_length o v (env (vs_name v)) E). lia.
 Qed.
 
 Lemma expand_expr_in_lang o vars env :
@@ -357,12 +429,12 @@ Proof.
   assert (HB : let e := rx_of_expr o vars in
                BodyL (rx_cls1 e) (rx_cls2 e) (rx_sep e) (rx_max e) (join_sep (op_sep o) (x :: items))).
   { apply join_body; [rewrite <- Ed; apply defined_items_units; exact Hn | discriminate |
-                      rewrite <- Ed; apply defined_items_length]. }
+                      rewrite <- Ed; apply defined_items_length | rewrite <- Ed; apply many_items_need_group]. }
   cbn zeta in HB. unfold rx_of_expr at 1. cbn [rx_first].
   destruct (op_first o) as [f|]; [exists (join_sep (op_sep o) (x :: items)); split; [reflexivity | exact HB] | exact HB].
 Qed.
 
-(* every RFC 6570 expansion, for string values, of a parsed template matches it *)
+(* every RFC 6570 expansion, for string and list values, of a parsed template matches it *)
 Theorem expansion_matches : forall sel ps env,
   ut_parse sel = Some ps -> rx_match (map rx_of_part ps) (ut_expand ps env) = true.
 Proof.
@@ -389,15 +461,37 @@ Qed.
 Definition w_sel1 : str := [123; 63; 97; 125].
 Definition w_topic1 : str := [63; 98; 61; 49].
 
+Lemma named_body_prefix (name e j : str) :
+  is_prefix name (match j with [] => name ++ e | _ => name ++ [61] ++ j end) = true.
+Proof. destruct j; apply is_prefix_app; eexists; reflexivity. Qed.
+
+(* whatever a single named variable is bound to, its expansion is empty or starts with first ++ name *)
+Lemma named_items_prefix o vs val x items :
+  op_named o = true -> var_items o vs val = x :: items -> is_prefix (vs_name vs) x = true.
+Proof.
+  intros En. unfold var_items. destruct val as [[v|l]|]; [| |discriminate].
+  - intros H. injection H as <- _. unfold expand_var. rewrite En.
+    destruct v; apply is_prefix_app; eexists; reflexivity.
+  - destruct l as [|m l]; [discriminate|]. destruct (negb (N.eqb (vs_maxlen vs) 0)); [discriminate|].
+    destruct (vs_explode vs).
+    + cbn [map]. intros H. injection H as <- _. rewrite En. destruct m; apply is_prefix_app; eexists; reflexivity.
+    + intros H. injection H as <- _. rewrite En.
+      exact (named_body_prefix (vs_name vs) (op_ifemp o) (join_sep 44 (map (esc_for o) (m :: l)))).
+Qed.
+
 Lemma match_without_expansion_name :
   exists ps f, ut_parse w_sel1 = Some ps /\ ut_tmatch w_sel1 = Some f /\ f w_topic1 = true /\
                forall env, ut_expand ps env <> w_topic1.
 Proof.
   eexists. eexists. split; [vm_compute; reflexivity|]. split; [vm_compute; reflexivity|].
   split; [vm_compute; reflexivity|]. intros env.
-  unfold ut_expand. cbn [flat_map expand_part]. unfold expand_expr, defined_items. cbn [flat_map vs_name].
-  destruct (env [97]) as [v|]; cbn; [|discriminate].
-  unfold expand_var. cbn [op_named vs_name]. destruct v; cbn; discriminate.
+  unfold ut_expand. cbn [flat_map expand_part]. rewrite app_nil_r.
+  unfold expand_expr, defined_items. cbn [flat_map]. rewrite app_nil_r.
+  destruct (var_items OpQuery _ (env _)) as [|x items] eqn:Ei; [discriminate|].
+  apply named_items_prefix in Ei; [|reflexivity]. cbn [vs_name] in Ei.
+  cbn [op_first]. destruct x as [|c x]; [discriminate|]. cbn [is_prefix] in Ei.
+  apply andb_true_iff in Ei. destruct Ei as [Ec _]. apply N.eqb_eq in Ec. subst c.
+  destruct items; cbn [join_sep app]; discriminate.
 Qed.
 
 Lemma esc_u_char_nonempty c : c <> [] -> esc_u_char c <> [].
@@ -418,16 +512,17 @@ Qed.
 
 Lemma match_without_expansion_prefix :
   exists ps f, ut_parse w_sel2 = Some ps /\ ut_tmatch w_sel2 = Some f /\ f w_topic2 = true /\
-               forall env, (forall n v, env n = Some v -> Forall (fun c => c <> []) v) -> ut_expand ps env <> w_topic2.
+               forall env, (forall n v, env n = Some (VStr v) -> Forall (fun c => c <> []) v) -> ut_expand ps env <> w_topic2.
 Proof.
   eexists. eexists. split; [vm_compute; reflexivity|]. split; [vm_compute; reflexivity|].
   split; [vm_compute; reflexivity|]. intros env Hwf.
-  unfold ut_expand. cbn [flat_map expand_part]. unfold expand_expr, defined_items. cbn [flat_map vs_name].
-  destruct (env [120]) as [v|] eqn:Ev; cbn [app]; [|discriminate].
-  specialize (Hwf _ _ Ev). cbn [op_first op_sep join_sep]. rewrite app_nil_r.
+  unfold ut_expand. cbn [flat_map expand_part]. rewrite app_nil_r.
+  unfold expand_expr, defined_items. cbn [flat_map vs_name]. rewrite app_nil_r.
+  destruct (env [120]) as [[v|l]|] eqn:Ev; cbn [var_items]; [| |discriminate].
+  2:{ destruct l; [discriminate|]. cbn [vs_maxlen N.eqb Pos.eqb negb]. discriminate. }
+  specialize (Hwf _ _ Ev). cbn [op_first op_sep join_sep].
   unfold expand_var. cbn [op_named vs_maxlen]. unfold esc_for. cbn [op_allow_r].
   unfold take_prefix. cbn [N.eqb Pos.eqb N.to_nat Pos.to_nat Pos.iter_op Nat.add].
-  (* at most three characters, each one byte or starting with '%' : never "abcd" *)
   change (Pos.to_nat 3) with 3%nat. unfold w_topic2, esc_u.
   destruct v as [|c1 v]; [discriminate|]. inversion Hwf as [|? ? H1 Hwf1]; subst.
   cbn [firstn flat_map].
@@ -451,11 +546,14 @@ Proof.
   apply andb_true_iff in H. destruct H as [H Hpre]. apply andb_true_iff in H. destruct H as [Hn Hne].
   unfold ut_expand. cbn [flat_map expand_part]. rewrite app_nil_r.
   unfold expand_expr, defined_items. cbn [flat_map]. rewrite app_nil_r.
-  destruct (env (vs_name v)) as [val|].
-  - rewrite Ef. cbn [join_sep]. unfold expand_var. rewrite Hn. intros <-.
-    apply negb_true_iff in Hpre.
-    destruct val; rewrite app_comm_cons, (is_prefix_refl_app (f :: vs_name v)) in Hpre; discriminate.
+  destruct (var_items o v (env (vs_name v))) as [|x items] eqn:Ei.
   - intros <-. discriminate.
+  - apply named_items_prefix in Ei; [|exact Hn]. rewrite Ef. intros <-.
+    apply negb_true_iff in Hpre. cbn [is_prefix] in Hpre. rewrite N.eqb_refl in Hpre. cbn [andb] in Hpre.
+    apply is_prefix_app in Ei. destruct Ei as [r ->].
+    destruct items as [|y items']; cbn [join_sep] in Hpre.
+    + rewrite is_prefix_refl_app in Hpre. discriminate.
+    + rewrite <- app_assoc, is_prefix_refl_app in Hpre. discriminate.
 Qed.
 
 (* ---- a selector without "{" is a template of one literal: it matches only itself ---- *)
